@@ -333,25 +333,23 @@ def pops_add_no_entries(xs: 'list', ps: 'list'):
 # ---- interpret: the graph a tree is read as (C04) ---------------------------------------------------
 
 @spec
-def firsts(entries: 'list') -> 'list':
-    """the triples of the entries, in order"""
+def triple_seen(k: 'val', entries: 'list') -> 'bool':
+    """some entry is for the triple k"""
     if len(entries) == 0:
-        return []
-    return firsts(entries[:-1]) + [entries[-1][0]]
+        return False
+    return entries[-1][0] == k or triple_seen(k, entries[:-1])
 
 
 @spec
 def first_entry(entries: 'list', j: 'int') -> 'bool':
     """entry j is the first one of its triple"""
-    return entries[j][0] not in firsts(entries[:j])
+    return not triple_seen(entries[j][0], entries[:j])
 
 
-@contract('penman.layout:interpret', bounded=True,
-          why='30 of its 32 obligations discharge (tools/dbg.py penman.layout:interpret); the two steps of the '
-              'invariant "every key of the marker table is the triple of an earlier entry" (membership in firsts() of a '
-              'growing prefix) stay unknown in all three solvers, so the contract is executed natively, not claimed as proved')
+@contract('penman.layout:interpret')
 def interpret(t: 'Tree', model: 'Model') -> 'Graph':
     requires(wf_node(t.node) and wf_tnode(t.node))
+    requires(dict_wf(t.metadata))
     raises(SurfaceError)
     # the triples are the documented reading (roles given their colon), the top is the root's variable
     ensures(result.triples == norm_triples(node_triples(t.node, {v for v, _ in nodes_of(t.node)}, model)), label='triples')
@@ -365,19 +363,5 @@ def interpret(t: 'Tree', model: 'Model') -> 'Graph':
     ensures(t.node == old(t).node, label='argument-kept')
     invariant(0, lambda: forall_idx(epidata[:_i], lambda j, e: dict_has(epimap, e[0])))
     invariant(0, lambda: forall_idx(epidata[:_i], lambda j, e: implies(first_entry(epidata, j), dict_get(epimap, e[0]) == e[1])))
-    invariant(0, lambda: forall_keys(epimap, lambda k: k in firsts(epidata[:_i])))
-    use('loop0.step', lambda: firsts_step(epidata, _i - 1))
-
-
-@lemma
-def firsts_snoc(es: 'list', b: 'val'):
-    ensures(firsts(es + [b]) == firsts(es) + [b[0]])
-
-
-@lemma
-def firsts_step(es: 'list', k: 'int'):
-    """one unfolding of firsts, stated over prefixes"""
-    requires(0 <= k and k < len(es))
-    ensures(firsts(es[:k + 1]) == firsts(es[:k]) + [es[k][0]])
-    use('post', lambda: firsts_snoc(es[:k], es[k]))
-    use('post', lambda: prefix_snoc(es, k))
+    invariant(0, lambda: forall_keys(epimap, lambda k: triple_seen(k, epidata[:_i])))
+    invariant(0, lambda: dict_wf(epimap))
